@@ -45,6 +45,9 @@ type Exec struct {
 	loopIns    []*State
 	topReturns []retEdge
 	protect    []modTarget
+	topFr      *frame   // frame of the function under verification
+	lateProt   []Expr   // opt protect-local: designators over locals, evaluated at each unknown call
+	lateText   string
 }
 
 func (x *Exec) pos(p token.Pos) token.Position { return x.eng.fset.Position(p) }
@@ -269,7 +272,7 @@ func (x *Exec) merge(sts []*State) (*State, error) {
 			n.epoch = x.vc.epochSeq
 			// heap maps not mentioned on either side start afresh in the merged epoch; the maps that
 			// carry protected / private locations must stay linked to both sides
-			for _, list := range [][]modTarget{x.protect, acc.private, s.private} {
+			for _, list := range [][]modTarget{x.protect, acc.private, s.private, x.lateTargets(acc), x.lateTargets(s)} {
 				for _, t := range list {
 					keys[t.key] = true
 					keySort[t.key] = t.sort
@@ -365,6 +368,9 @@ func (x *Exec) execFunc(fn *ssa.Function, args []Val, bindings []Val, st *State,
 		return nil, Val{}, err
 	}
 	fr := &frame{fn: fn, prefix: prefix, forest: forest, depth: depth, deferAt: len(st.defers)}
+	if depth == 0 {
+		x.topFr = fr
+	}
 	fr.fc = x.eng.contractFor(fn)
 	if depth == 0 {
 		fr.fc = x.fc
@@ -881,6 +887,23 @@ func (x *Exec) applyHavoc(fr *frame, st *State, hav *havocSet, pre *State) {
 		if precise {
 			x.keepFields(st, k, sortS, oldH, nh, hav.wl.fields[k])
 		}
+		if !hav.wl.whole[k] && len(hav.wl.fields[k]) == 0 && k != "$alloc" {
+			// the loop body itself never writes this map (it is in the havoc set only because a
+			// merge of states with different epochs named it): locations that calls with unknown
+			// effects are assumed not to touch keep their value across the loop
+			for _, list := range [][]modTarget{x.protect, st.private, x.lateTargets(st)} {
+				for _, t := range list {
+					if t.key != k {
+						continue
+					}
+					if t.all {
+						x.vc.assume(st.pc, Eq(nh, oldH))
+					} else {
+						x.vc.assume(st.pc, Eq(Select(nh, t.ref), Select(oldH, t.ref)))
+					}
+				}
+			}
+		}
 		if k == "$alloc" {
 			// allocation only grows
 			x.vc.assert(raw(fmt.Sprintf("(forall ((r Int)) (! (=> (select %s r) (select %s r)) :pattern ((select %s r))))", oldH.S, nh.S, nh.S), SBool))
@@ -1341,7 +1364,7 @@ func (x *Exec) execInstr(fr *frame, st *State, in ssa.Instruction) error {
 		ref := vc.allocRef(st, "mk")
 		key, hs := vc.elemKey(et)
 		as := arraySort(vc.ar.IdxSort(), vc.sortOf(et))
-		zero := raw(fmt.Sprintf("((as const %s) %s)", as, vc.zeroOf(et).S), as)
+		zero := vc.constArray(as, vc.zeroOf(et))
 		x.vc.setHeap(st, key, vc.bind("E", Store(vc.heapGet(st, key, hs), ref, zero)), -1)
 		x.setReg(st, i, Val{T: vc.bind(i.Name(), app("Slice", "mk-slice", ref, z, ln, cp))})
 		return nil
@@ -2157,4 +2180,28 @@ func (x *Exec) equal(st *State, a, b Val, at, bt types.Type) (Term, error) {
 		return Term{}, unsupported("comparison of %s and %s", at, bt)
 	}
 	return Eq(a.T, b.T), nil
+}
+
+// lateTargets evaluates the "opt protect-local" designators in the given state (those whose
+// local variables are live).
+func (x *Exec) lateTargets(st *State) []modTarget {
+	if len(x.lateProt) == 0 || x.topFr == nil {
+		return nil
+	}
+	x.vc.dry++
+	defer func() { x.vc.dry-- }()
+	env := x.specEnv(x.topFr, st, nil)
+	var out []modTarget
+	for _, pe := range x.lateProt {
+		ts, err := x.designator(pe, env)
+		if err != nil {
+			continue
+		}
+		for _, t := range ts {
+			if !t.all {
+				out = append(out, t)
+			}
+		}
+	}
+	return out
 }
